@@ -161,7 +161,11 @@ def model(view, t, argvals):
     if f0.get("trait") in ("core::iter::Iterator", "core::iter::DoubleEndedIterator") and \
             mir.last_seg(f0["decl"]) in ("next", "next_back"):
         st = f0.get("self") or ""
-        if "core::ops::Range" not in st and "core::iter::range" not in name and "Step" not in st:
+        data_dependent = any(x in st for x in ("SkipWhile", "TakeWhile", "Filter", "MapWhile", "Scan", "FlatMap", "Flatten",
+                                               "Peekable", "StepBy", "Fuse"))
+        plain_range = ("core::ops::Range" in st or "core::iter::range" in name or "Step" in st) and \
+            not any(x in st for x in ("Zip", "Rev<core::slice", "Enumerate<core::slice", "Map<core::slice"))
+        if not plain_range and not data_dependent:
             return m_iter_next(view, t, argvals)
     m = EXACT.get(n)
     if m is not None:
